@@ -956,6 +956,10 @@ func (s *Server) processPublish(cl *Client, pk packets.Packet) error {
 		pk.TopicName = cl.State.TopicAliases.Inbound.Set(pk.Properties.TopicAlias, pk.TopicName)
 	}
 
+	if pk.TopicName == "" && !cl.Net.Inline {
+		return s.DisconnectClient(cl, packets.ErrProtocolViolationNoTopic) // the alias was never bound on this connection
+	}
+
 	if pk.FixedHeader.Qos > s.Options.Capabilities.MaximumQos {
 		pk.FixedHeader.Qos = s.Options.Capabilities.MaximumQos // [MQTT-3.2.2-9] Reduce qos based on server max qos capability
 	}
